@@ -17,7 +17,7 @@ Definition enq1 (ts : tstate) : bool := match cur_api ts with Some QEnq1 => true
 Definition pendJ (ts : tstate) : bool :=
   match ts with TM M5 => true | _ => match cur_api ts with Some QTerm2 => true | _ => false end end.
 Definition japi (a : api) : bool :=
-  match a with QEnqC _ | QEnq0 _ | QEnq1 | QEnq2 | QTermC | QTerm0 | QTerm1 | QTerm2 | QTerm3 | QTerm4 => true | _ => false end.
+  match a with QEnqC _ | QEnq0 _ | QEnq1 | QEnq2 | QTermC | QTerm0 | QTerm1 | QTerm2 | QTerm3 | QTerm4 | QWait _ => true | _ => false end.
 Definition jok (ts : tstate) : bool := match ts with TWJ _ _ a _ => japi a | _ => true end.
 
 Lemma jok_job_next tk j r : jok (job_next tk j r) = true.
@@ -346,10 +346,14 @@ Qed.
 Ltac goal_ops := unfold do_lock, do_unlock, do_wb, do_we, do_n1, do_na, free, owned.
 Ltac try_ev Ho ev := solve [exists ev; cbn; goal_ops; cbn; rewrite ?Ho, ?Nat.eqb_refl; cbn; rewrite ?Nat.eqb_refl; cbn; eauto].
 
+(** blocked in a rendezvous: inside a job body, waiting for a job whose body has not ended *)
+Definition awaitb (s : shared) (a : api) : bool := match a with QWait j => negb (mem j (endedj s)) | _ => false end.
+Definition blockedw (s : shared) (ts : tstate) : bool := match cur_api ts with Some a => awaitb s a | None => false end.
+
 Lemma api_free_enabled fx sp t s a :
-  ahold a = false -> aslp a = None -> owner s = None -> exists e s' oa, api_step fx sp t s a e = Some (s', oa).
+  ahold a = false -> aslp a = None -> awaitb s a = false -> owner s = None -> exists e s' oa, api_step fx sp t s a e = Some (s', oa).
 Proof.
-  intros Hh Hs Ho. destruct a; try discriminate Hh; try discriminate Hs.
+  intros Hh Hs Hb Ho. destruct a; try discriminate Hh; try discriminate Hs.
   - try_ev Ho (EUser UENQ j).
   - try_ev Ho ELock.
   - try_ev Ho (EUser UTERM 0).
@@ -359,14 +363,16 @@ Proof.
   - try_ev Ho (EUser ULT 0).
   - try_ev Ho ELock.
   - try_ev Ho (EAL ADone (done s)).
+  - cbn in Hb. apply negb_false_iff in Hb. exists (EUser UWD j). cbn. rewrite Nat.eqb_refl, Hb. cbn. eauto.
 Qed.
 
-(** a worker that is not waiting always has an enabled event when the mutex is free *)
+(** a worker that is neither waiting on a condition variable nor blocked in a rendezvous always has an enabled
+    event when the mutex is free *)
 Lemma worker_free_enabled cfg fx sp fin t s ts :
-  is_worker ts = true -> hold ts = false -> slp ts = None -> owner s = None -> (ts = TW WD1 -> 1 <= busy s) ->
+  is_worker ts = true -> hold ts = false -> slp ts = None -> blockedw s ts = false -> owner s = None -> (ts = TW WD1 -> 1 <= busy s) ->
   exists e s' ts', tstep cfg fx sp fin t s ts e = Some (s', ts', None).
 Proof.
-  intros Hw Hh Hs Ho Hb.
+  intros Hw Hh Hs Hbl Ho Hb.
   destruct ts as [| |p|tk j|tk j|tk j a r|tk j|a r| |p|a r]; try discriminate Hw; try discriminate Hh.
   - destruct p; try discriminate Hh; try discriminate Hs.
     + try_ev Ho ELock.
@@ -376,7 +382,7 @@ Proof.
       exists (EAR ABusy (busy s) (busy s - 1)). cbn [tstep]. rewrite !Nat.eqb_refl, E. cbn. eauto.
     + try_ev Ho ELock.
   - try_ev Ho (EUser UJS j).
-  - destruct (api_free_enabled fx sp t s a Hh Hs Ho) as (e & s' & [a'|] & E); exists e; cbn [tstep]; rewrite E; eauto.
+  - destruct (api_free_enabled fx sp t s a Hh Hs Hbl Ho) as (e & s' & [a'|] & E); exists e; cbn [tstep]; rewrite E; eauto.
   - try_ev Ho (EUser UJE j).
 Qed.
 
@@ -406,27 +412,32 @@ Proof. intros HI Ho. rewrite (i_mutex _ HI). now apply owned_none. Qed.
 (** A worker that is not in the wait set of cv_jobs_ is enabled in every state with a free mutex. *)
 Lemma worker_enabled cfg s w :
   reachable cfg false s -> owner (shr s) = None -> is_worker (get (thr s) w) = true -> ~ In w (wsJ (shr s)) ->
+  blockedw (shr s) (get (thr s) w) = false ->
   exists e s', lstep cfg false s (w, e) = Some s'.
 Proof.
-  intros R Ho Hw Hn.
+  intros R Ho Hw Hn Hbl.
   pose proof (inv_reachable _ _ _ _ R) as HI. pose proof (winv_reachable _ _ _ _ R) as HW. pose proof (jinv_reachable _ _ _ _ R) as HJ.
   destruct (slp (get (thr s) w)) as [c|] eqn:Es.
   - assert (c = CJ) by (eapply worker_slp; eauto; apply (j_ok _ HJ)). subst c.
     destruct (w_slp _ HW CJ w Es) as [A|A]; [contradiction|].
     destruct (waiter_enabled cfg true false s w CJ Es A Ho) as (s' & E). eauto.
   - destruct (worker_free_enabled cfg true false (fun u => is_fin (get (thr s) u)) w (shr s) (get (thr s) w) Hw
-                (free_not_hold _ _ HI Ho) Es Ho) as (e & s' & ts' & E).
+                (free_not_hold _ _ HI Ho) Es Hbl Ho) as (e & s' & ts' & E).
     + intros E. rewrite (i_busy _ HI). eapply cnt_pos with (u := w); [rewrite E|]; reflexivity.
     + apply lstep_of_tstep in E. eauto.
 Qed.
 
+(** "no job body is blocked in a rendezvous" (hypothesis of the statements that need every running job to finish) *)
+Definition no_blocked_job (s : state) : Prop := forall u, blockedw (shr s) (get (thr s) u) = false.
+
 (** No quiescent state has an idle worker (blocked in cv_jobs_.wait) while the pool is terminated or
-    while jobs are queued. *)
-Theorem no_stranded_idle_worker cfg s u :
-  reachable cfg false s -> quiescent cfg true false s -> waits_job (get (thr s) u) = true ->
+    while jobs are queued -- here under the hypothesis that no job body is blocked in a rendezvous; the statement
+    without that hypothesis is [no_stranded_idle_worker] in PoolQueue.v (counting argument). *)
+Theorem no_stranded_idle_worker_nowait cfg s u :
+  reachable cfg false s -> quiescent cfg true false s -> no_blocked_job s -> waits_job (get (thr s) u) = true ->
   term (shr s) = false /\ queue (shr s) = [].
 Proof.
-  intros R Q Hu.
+  intros R Q NB Hu.
   pose proof (inv_reachable _ _ _ _ R) as HI. pose proof (winv_reachable _ _ _ _ R) as HW. pose proof (jinv_reachable _ _ _ _ R) as HJ.
   pose proof (quiescent_free _ _ _ R Q) as Ho.
   apply waits_job_w5 in Hu.
@@ -443,6 +454,6 @@ Proof.
   assert (Qne : queue (shr s) <> []) by (rewrite Eq; discriminate).
   destruct (j_queue _ HJ Qne T) as [(w & P)|[(w & P1 & P2)|P]].
   - apply (NH w). now apply enq1_hold.
-  - destruct (worker_enabled cfg s w R Ho (actw_is_worker _ P1) P2) as (e & s' & E). unfold lstep in E. rewrite (Q w e) in E. discriminate.
+  - destruct (worker_enabled cfg s w R Ho (actw_is_worker _ P1) P2 (NB w)) as (e & s' & E). unfold lstep in E. rewrite (Q w e) in E. discriminate.
   - rewrite P in Hin. destruct Hin.
 Qed.
